@@ -472,7 +472,7 @@ class Unit:
         if im is not None:
             tybase = re.sub(r'<.*$', '', im.ty.strip().lstrip('&').strip()).split('::')[-1] + '::'
         vname = '::'.join([x for x in [self.cfg.get('crate_name', 'unit'), modpath.replace('::', '::')] if x]) + '::' + tybase + f.name
-        meta = dict(key=key, verus_name=vname, file=repo_rel, lines=[it.line, it.end_line], sha256_source=sha(it.text), norm_sha=norm_sha(it.text), mode=mode,
+        meta = dict(key=key, verus_name=vname, file=repo_rel, lines=[it.line, it.end_line], sha256_source=sha(it.text), norm_sha=norm_sha(it.text), modpath=modpath, fn_pattern=tybase + f.name, mode=mode,
                     serves=(c.serves if c else []), rules=[], contract_file=(os.path.relpath(c.file, self.cfg['verif_root']) if c else None))
         self.functions.append(meta)
         if key in self.downgraded:
@@ -641,7 +641,8 @@ class Unit:
             entry = '\n'.join(c.entry)
         gen_c = re.search(r'\bC\b', (f.generics or '')) or True
         if self.cfg.get('auto_algebra', True) and not (c and c.nohints):
-            entry = 'broadcast use crate::vstdx::group_cow;\nproof { crate::vspec::use_algebra::<C>(); crate::vspec::use_id_order::<C>(); }\n' + entry
+            entry = ('broadcast use crate::vstdx::group_cow;\nproof { crate::vspec::use_algebra::<C>(); crate::vspec::use_id_order::<C>(); %s}\n'
+                     % ('crate::vspec::use_ac::<C>(); ' if self.cfg.get('second_opinion') else '')) + entry
         if self.cfg.get('canary'):
             # vacuity guard (DESIGN 2.7): with this flag every verified function must FAIL
             entry = entry + '\nassert(false); /*@CANARY*/'
